@@ -1,22 +1,22 @@
-(* C31 obligation (partial): series_atan, general path (s <> x; the closed-form loop for
-   atan(x) itself is covered by the correspondence only):  y(0) = 0,  y' (1 + s^2) = s'.
-   Full statement: the same without the hypothesis `peqb s pvar = false`. *)
+(* C31 obligation: series_atan (s == 0, the closed-form loop for atan(x), and the general
+   integral of s'/(1+s^2)):  y(0) = 0,  y' (1 + s^2) = s'  modulo x^(prec-1); by uniqueness the
+   coefficients below x^prec are those of atan(s). *)
 From Coq Require Import QArith List ZArith NArith.
 From SE Require Import C31.VisitorModel.
 From SE Require Import C31.SeriesSpec C31.Invert C31.SeriesProofs.
 Local Open Scope Q_scope.
-Theorem C31_atan_spec_partial :
+Theorem C31_atan_spec :
   forall (s : poly) (prec : N),
-    wfb s = true -> const0 s = true -> prec_ok prec = true -> peqb s pvar = false ->
+    wfb s = true -> const0 s = true -> prec_ok prec = true ->
     exists r, series_atan s prec = Ok r /\ wf r /\ den r O == 0 /\
               eqn (N.to_nat prec - 1) (pD (den r) * (p1 + den s * den s))%ps (pD (den s)).
 Proof. exact atan_spec_b. Qed.
-Theorem C31_atan_taylor_partial :
+Theorem C31_atan_taylor :
   forall (s : poly) (prec : N) (r : poly) (y : ps),
-    wfb s = true -> const0 s = true -> prec_ok prec = true -> peqb s pvar = false ->
+    wfb s = true -> const0 s = true -> prec_ok prec = true ->
     series_atan s prec = Ok r ->
     y O == 0 -> (pD y * (p1 + den s * den s))%ps =p pD (den s) ->
     eqn (N.to_nat prec) (den r) y.
 Proof. exact atan_taylor. Qed.
-Print Assumptions C31_atan_spec_partial.
-Print Assumptions C31_atan_taylor_partial.
+Print Assumptions C31_atan_spec.
+Print Assumptions C31_atan_taylor.
